@@ -52,6 +52,20 @@ def run_cases(ctx, n, rational_share=0.7, with_sources=True):
             cases.append({"steps": steps, "corr": corr, "error": "{}: {}".format(type(e).__name__, e)})
             continue
         cases.append({"steps": steps, "corr": corr, "model": w.model, "obs": observations})
+        # second phase: change a central value, recalculate every result, observe again (the results must be
+        # those of the formula at the NEW central values: intermediate results may not keep anything back)
+        ch = CL.pick_value_change(w.model, rng) if rng.random() < 0.6 else None
+        if ch:
+            try:
+                w.objs[ch[0]].value = ch[1]
+                for k in w.derived_ids():
+                    w.objs[k].recalculate()
+                obs2 = [w.observe(k, with_sources) for k in reversed(w.derived_ids())]
+                cases.append({"steps": steps, "corr": corr, "change": list(ch), "model": CL.with_value(w.model, *ch),
+                              "obs": obs2})
+                res.count("phase2:value-change+recalculate")
+            except Exception as e:
+                cases.append({"steps": steps, "corr": corr, "change": list(ch), "error": "{}: {}".format(type(e).__name__, e)})
         res.evaluations += 1
         res.traces += 1
         for s in steps:
@@ -81,7 +95,7 @@ def to_shards(cases, per=40):
 
 
 def correspondence(ctx):
-    cases, res = run_cases(ctx, ctx.n(300, 5000))
+    cases, res = run_cases(ctx, ctx.n(180, 4000))
     res.rule = ("random expression DAGs built through the public API (1-4 measurements, 1-8 operations, operand forms "
                 "quantity-quantity / quantity-number / number-quantity / (value, error) pair, shared sub-results, random pairwise "
                 "correlations set before or after deriving); observed: value, error, sorted source ids, derivative w.r.t. every "
@@ -92,7 +106,8 @@ def correspondence(ctx):
     for c in cases:
         if "error" in c:
             res.disagreements.append({"name": "implementation raised on an in-domain program: " + c["error"][:120],
-                                      "kind": "program", "case": {"steps": c["steps"], "corr": c["corr"]}})
+                                      "kind": "program", "case": {"steps": c["steps"], "corr": c["corr"],
+                                                                  "change": c.get("change")}})
     shards, index = to_shards(cases)
     bads, logs = coq.run_case_files(ID, shards, keep=getattr(ctx, "keep_cases", False))
     compared = 0
@@ -103,31 +118,47 @@ def correspondence(ctx):
         for i in bad[0]:
             c = cases[idx[i]]
             res.disagreements.append({"name": "Model.CoreQ (value/err2/sources/deriv) vs DerivedValue.value/.error/.derivative",
-                                      "kind": "program", "case": {"steps": c["steps"], "corr": c["corr"]}})
+                                      "kind": "program", "case": {"steps": c["steps"], "corr": c["corr"],
+                                                                  "change": c.get("change")}})
         if len(bad) > 1 and bad[1]:
             compared += bad[1][0]
     res.extra["numbers_compared_in_Q"] = compared
     return res
 
 
-def oracle_program(steps, corr):
-    """None or description of the first object that contradicts the property"""
+def oracle_program(steps, corr, change=None):
+    """None or description of the first object that contradicts the property; with [change] = (measurement, new value)
+    the central value is changed after a first read, every result recalculated, and the check repeated"""
     try:
         w = CL.execute(steps, corr)
     except Exception as e:
         return "the implementation raised {}: {}".format(type(e).__name__, str(e)[:100])
-    for k in w.derived_ids():
-        try:
-            obs = w.observe(k, with_sources=False)
-        except Exception as e:
-            return "reading object {} raised {}: {}".format(k, type(e).__name__, str(e)[:100])
-        why = CL.oracle_object(w.model, corr, obs)
-        if why:
-            return "object {} ({}): {}".format(k, w.model[k], why)
+    model = w.model
+    for phase in (1, 2):
+        for k in (w.derived_ids() if phase == 1 else reversed(w.derived_ids())):
+            try:
+                obs = w.observe(k, with_sources=False)
+            except Exception as e:
+                return "reading object {} raised {}: {}".format(k, type(e).__name__, str(e)[:100])
+            why = CL.oracle_object(model, corr, obs)
+            if why:
+                return "{}object {} ({}): {}".format(
+                    "" if phase == 1 else "after measurement {} := {} and recalculate(): ".format(*change), k, model[k], why)
+        if not change or phase == 2:
+            break
+        w.objs[change[0]].value = change[1]
+        for k in w.derived_ids():
+            w.objs[k].recalculate()
+        model = CL.with_value(w.model, *change)
     return None
 
 
 def shrink_program(steps, corr, fails):
+    """drop trailing operations and correlations while the failure persists"""
+    return _shrink(steps, corr, fails)
+
+
+def _shrink(steps, corr, fails):
     """drop trailing operations and correlations while the failure persists"""
     n_meas = len([s for s in steps if s[0] == "meas"])
     changed = True
@@ -157,25 +188,40 @@ def search(ctx, suspects, budget):
                 todo.append(json.load(open(os.path.join(d, f)))["case"])
     n = 0
     while len(out) < 3:
+        change = None
         if todo:
             c = todo.pop(0)
-            steps, corr = c["steps"], c["corr"]
+            steps, corr, change = c["steps"], c["corr"], c.get("change")
         elif time.time() - t0 > budget:
             break
         else:
             steps, corr = CL.gen_program(ctx.rng, rational_only=ctx.rng.random() < 0.3)
+            if ctx.rng.random() < 0.5:
+                change = change_for(steps, corr, ctx.rng)
         n += 1
-        why = oracle_program(steps, corr)
+        why = oracle_program(steps, corr, change)
         if why:
-            steps, corr = shrink_program(steps, corr, lambda s, c: oracle_program(s, c) is not None)
-            why = oracle_program(steps, corr) or why
-            out.append(Violation(ID, "program", {"steps": steps, "corr": corr}, why))
+            if change is None or oracle_program(steps, corr) is not None:
+                change = None
+                steps, corr = shrink_program(steps, corr, lambda s, c: oracle_program(s, c) is not None)
+            why = oracle_program(steps, corr, change) or why
+            out.append(Violation(ID, "program", {"steps": steps, "corr": corr, "change": change}, why))
     ctx.notes.append("oracle: {} programs checked against finite differences".format(n))
     CL.reset_world()
     return out
 
 
+def change_for(steps, corr, rng):
+    """a value change that keeps the program in its domain (the model of the program is obtained by running it once)"""
+    try:
+        w = CL.execute(steps, corr)
+    except Exception:
+        return None
+    ch = CL.pick_value_change(w.model, rng)
+    return list(ch) if ch else None
+
+
 def replay(ctx, v):
-    why = oracle_program(v["case"]["steps"], v["case"]["corr"])
+    why = oracle_program(v["case"]["steps"], v["case"]["corr"], v["case"].get("change"))
     CL.reset_world()
     return Violation(ID, v["kind"], v["case"], why) if why else None
